@@ -217,10 +217,15 @@ where
                                     panic!("sink must not send data");
                                 },
                                 Message::Pull => {
-                                    let source_talkback = source_talkback.load();
-                                    let source_talkback =
-                                        source_talkback.as_ref().expect("source talkback not set");
-                                    call!(source_talkback, Message::Pull, "to source: {message:?}");
+                                    // (no talkback: the source has ended, and its end is still being
+                                    // handed round to the sinks)
+                                    if let Some(source_talkback) = &*source_talkback.load() {
+                                        call!(
+                                            source_talkback,
+                                            Message::Pull,
+                                            "to source: {message:?}"
+                                        );
+                                    }
                                 },
                                 Message::Error(_) | Message::Terminate => {
                                     {
@@ -237,15 +242,13 @@ where
                                         }
                                     }
                                     if sinks.load().is_empty() {
-                                        let source_talkback = source_talkback.load();
-                                        let source_talkback = source_talkback
-                                            .as_ref()
-                                            .expect("source talkback not set");
-                                        call!(
-                                            source_talkback,
-                                            Message::Terminate,
-                                            "to source: {message:?}"
-                                        );
+                                        if let Some(source_talkback) = &*source_talkback.load() {
+                                            call!(
+                                                source_talkback,
+                                                Message::Terminate,
+                                                "to source: {message:?}"
+                                            );
+                                        }
                                     }
                                 },
                             }
@@ -269,6 +272,11 @@ where
                                         "to sink: {message:?}"
                                     );
                                 } else {
+                                    if let Message::Error(_) | Message::Terminate = message {
+                                        // the source has ended: nothing may be sent to it any more, not
+                                        // even by a sink that acts while the end is being handed round
+                                        source_talkback.store(None);
+                                    }
                                     for s in &**sinks.load() {
                                         // a delivery may nest another fan-out (a sink pulls from inside
                                         // its handler and the source answers at once), which may have
